@@ -928,6 +928,10 @@ def _r6(repo, L, m, ba):
         if p.status == "continue":
             empties = [1 for e in p.events if e.kind == "cond" for t, v in cond_facts(e.node, e.val) if norm(t) == f"{sv}.rows" and v is False]
             if not empties or apps:
+                # the scaffold may have been handed on some other way (stored in a table, yielded ...): not a form these rules know
+                handed = [e.node for e in p.events if e.kind in ("stmt", "return") and any(isinstance(x, ast.Name) and x.id == sv and isinstance(x.ctx, ast.Load) for x in ast.walk(e.node)) and (isinstance(e.node, ast.Assign) and not isinstance(e.node.targets[0], ast.Name) or any(isinstance(x, ast.Yield | ast.YieldFrom) for x in ast.walk(e.node)) or any(isinstance(x, ast.Call) and isinstance(x.func, ast.Attribute) and x.func.attr in ("append", "add", "extend", "setdefault") for x in ast.walk(e.node)))]
+                if handed:
+                    raise AnalysisError(f"{fuse.short}: a path passes the build scaffold on by '{norm(handed[0])[:60]}' instead of appending it to a fused scaffold: form not understood by the fuse rules")
                 ok, why = False, "a build scaffold is skipped although it has rows: its contigs are lost"
         elif p.status == "fall":
             if len(apps) != 1:
